@@ -19,9 +19,9 @@ def extra(res, cases, hv, driver):
     from .. import forms, tvrun
     levels = LEVELS_QUICK if res.tier == "quick" else LEVELS_THOROUGH
     tv = tvrun.run(res, PROP, cases, levels, 2, True, "bc")
-    res.assumptions += ["bytecode generation (bc::CodeGen::translate, interpreter setting: 2 registers, fusion): theorem C02_validated_translation (Props/C02.v) proves that an IR program and a bytecode program accepted by TV.tv_check with some certificate have, for every input and I/O environment, the same I/O state whenever the IR run completes or stops on an I/O failure (IR.v vs BC.v); the check dumps IR and bytecode of every generated program x level from the current build, infers a certificate (tools/tvinfer.py, untrusted) and runs the extracted checker: every pair must be accepted (translation_validation in extra); IR.v/BC.v are tied to the engines by the trace comparisons of this check and the form-level correspondence; at level 0 theorem C02_level0_source_to_bytecode composes this with C01_level0_states (parser + IR interpreter = canonical semantics for every program): accepted level-0 bytecode has the canonical behaviour of the source text for every input; not covered by the theorem: divergence (a diverging IR run says nothing), limited execution"]
+    res.assumptions += ["bytecode generation (bc::CodeGen::translate, interpreter setting: 2 registers, fusion): theorem C02_validated_translation (Props/C02.v) proves that an IR program and a bytecode program accepted by TV.tv_check with some certificate have, for every input and I/O environment, the same I/O state whenever the IR run completes or stops on an I/O failure (IR.v vs BC.v); the check dumps IR and bytecode of every generated program x level from the current build, infers a certificate (tools/tvinfer.py, untrusted) and runs the extracted checker: every pair must be accepted (translation_validation in extra); IR.v/BC.v are tied to the engines by the trace comparisons of this check and the form-level correspondence; at level 0 theorem C02_level0_source_to_bytecode composes this with C01_level0_states (parser + IR interpreter = canonical semantics for every program): accepted level-0 bytecode has the canonical behaviour of the source text for every input; theorems C02_validated_translation_converse / C02_divergence_preserved give the other direction (a bytecode run that ends is matched by an IR run that ends the same way), so the two runs end together with equal traces or diverge together; not covered: limited execution"]
     return {"form_level": forms.run_forms(res, ["bc"], sample=(6 if res.tier == "quick" else None)), "translation_validation": tv,
-            "theorems": ["C02_validated_translation", "C02_same_trace", "C02_wellformed_never_errors", "C02_level0_source_to_bytecode"]}
+            "theorems": ["C02_validated_translation", "C02_same_trace", "C02_wellformed_never_errors", "C02_level0_source_to_bytecode", "C02_validated_translation_converse", "C02_divergence_preserved", "C02_level0_source_divergence"]}
 
 
 def run(res):
